@@ -566,5 +566,6 @@ def r18_4(ctx, repo):
                 ctx.ok(rule, where, site,
                        'values laid out (%s) are stored as (chain, draw)' % (
                            ', '.join(str(x) for x in layout)), engine=ENG)
-    if n < 4:
-        ctx.error(rule, 'only %d stores analysed (floor 4)' % n)
+    if n < 2:
+        ctx.error(rule, 'only %d stores analysed (floor 2: one direct '
+                  'store and its fallback)' % n)
